@@ -386,7 +386,29 @@ def _run_direct(case):
         g = Globals()
         g.id_manager = idm
         fake = SimpleNamespace(interpreter=SimpleNamespace(globals=g, parent_application=app))
-        if callable(getattr(RuntimeContext, "check_if_finished", None)) and hasattr(g, "check_slots_filled"):
+        # dry run with a recording stand-in: only when the method works on this stand-in structure
+        # (a refactoring may have moved the logic elsewhere) is it used for the real objects
+        class _Probe:
+            stopping_tablename = None
+            calls = 0
+
+            def ensure_progress_was_made(self, id_manager):
+                self.calls += 1
+
+            def check_if_finished(self, id_manager):
+                self.calls += 1
+                return True
+        pg = Globals()
+        pg.id_manager = IdManager()
+        probe = _Probe()
+        usable = False
+        try:
+            usable = (RuntimeContext.check_if_finished(
+                SimpleNamespace(interpreter=SimpleNamespace(globals=pg, parent_application=probe))) is True
+                and probe.calls == 2)
+        except Exception:
+            usable = False
+        if usable and hasattr(g, "check_slots_filled"):
             def finish():  # noqa: F811
                 return RuntimeContext.check_if_finished(fake)
             via = "RuntimeContext"
